@@ -225,7 +225,7 @@ BIND_PLAIN = ["up", "down", "accept", "abort", "select-all", "toggle-down", "pre
 BIND_EXEC = ["execute", "execute-silent", "reload", "change-prompt", "transform-query", "put", "unbind", "change-multi"]
 BIND_OPEN = ["(", "[", "{", "<", "~", "!", "@", "#", "$", "%", "^", "&", "*", ";", "/", "|"]
 BIND_CLOSE = {"(": ")", "[": "]", "{": "}", "<": ">"}
-BIND_CHARS = ["a", "x", " ", "+", ",", ":", "(", ")", "[", "]", "{", "}", "<", ">"] + BIND_OPEN[4:]
+BIND_CHARS = ["a", "x", " ", "+", ",", ":", "(", ")", "[", "]", "{", "}", "<", ">", "é", "漢"] + BIND_OPEN[4:]
 BIND_ATOMS = sorted(set(BIND_KEYS + BIND_PLAIN + BIND_EXEC + BIND_CHARS))
 
 
